@@ -216,11 +216,11 @@ def _edit_bundle(data, gen):
     if data and cc < 0.5:
         k = r.choice(sorted(data))
         v = data[k]
-        if isinstance(v, str) and (k.startswith("text/") or k in ("image/svg+xml", "application/javascript") or (k.endswith("json") and "\n" in v)):
+        if isinstance(v, str) and (k.lower().startswith("text/") or k in ("image/svg+xml", "application/javascript") or (k.endswith("json") and "\n" in v)):
             data[k] = edit_text(v, gen, OUT_LINES)
         else:
             nb = gen.mimebundle()
-            data[k] = nb.get(k, gen.mimebundle(True).get(k, "changed"))
+            data[k] = nb.get(k, gen.mimebundle(True).get(k, (v[:-4] + "QUJD") if isinstance(v, str) and len(v) > 8 else "changed"))
             if k in ("application/json", "application/vnd.custom+json") and k not in nb:
                 data[k] = gen.value(1)
             if k in ("application/json", "application/vnd.custom+json") and not isinstance(v, (str, list, dict)) and r.random() < 0.7:
